@@ -118,6 +118,11 @@ def synthetic_system(ctx, tag):
         yield "X\tqnew\ti:5000\tu%d" % names["C"]
         ctx.nq += 2
         yield "X\tequate\tq%d\tq%d" % (ctx.nq - 2, ctx.nq - 1)
+    # a unit cannot be equated with or translated to itself (ValueError, nothing changes)
+    yield from eq(names["A"], 2, names["A"])
+    yield "X\tqnew\ti:5\tu%d" % names["B"]
+    ctx.nq += 1
+    yield "X\ttranslate\tu%d\tq%d" % (names["B"], ctx.nq - 1)
     yield "X\tqnew\ti:3\tu%d" % names["F"]
     yield "X\tqnew\ti:7\tu%d" % meter
     ctx.nq += 2
